@@ -620,6 +620,9 @@ func drawQueryPrefix(t *rapid.T) string {
 	u := universe()
 	k := u[rapid.IntRange(0, len(u)-1).Draw(t, "pfxKey")]
 	l := rapid.IntRange(0, 20).Draw(t, "pfxLen")
+	if verifsim.Chance(t, "longPfx", 12) {
+		l = rapid.SampledFrom([]int{256, 255, 64, 256}).Draw(t, "longPfxLen") // up to the whole identifier of a key
+	}
 	p := kpool().Bits(k)[:l]
 	if l > 0 && rapid.IntRange(0, 3).Draw(t, "pfxFlip") == 0 {
 		b := []byte(p)
